@@ -3,6 +3,7 @@
    codec round trip of C10 plus the whole-file check; crash points inside recovery are C04). *)
 From Coq Require Import List NArith ZArith Bool.
 From Feox Require Import Gen.Constants Model.Bytes Model.Lww Proofs.LwwProofs.
+From Feox Require Model.Sched Model.Sweep Proofs.SweepProofs.
 Import ListNotations.
 Local Open Scope N_scope.
 
@@ -84,13 +85,130 @@ Print Assumptions restart_keeps_unexpired.
 Theorem ttl_update_keeps_value :
   forall c s e k ttl old,
   find k (kv s) = Some old -> snd (step c s (UpdateTtl k ttl) e) = OUnit -> sorted (kv s) ->
-  exists g, find k (kv (fst (step c s (UpdateTtl k ttl) e))) = Some g /\ g_val g = g_val old /\ g_ts old < g_ts g.
+  exists g, find k (kv (fst (step c s (UpdateTtl k ttl) e))) = Some g /\ g_val g = g_val old /\ g_ts old < g_ts g
+(* ---- concurrent clause (Model/Sweep.v): the sweeper and lazy retirement racing with writers that
+   renew, replace or delete the key, under a clock that only grows; every schedule ---- *)
+
+(* while nobody writes or deletes the key, its current generation stays in the table for as long
+   as it is unexpired or has no expiry: through any number of sweeper batches, lazy retirements,
+   writes to other keys and clock ticks, in any order *).
 Proof. exact ttl_only_update_keeps_value. Qed.
 Check ttl_update_keeps_value :
   forall c s e k ttl old,
   find k (kv s) = Some old -> snd (step c s (UpdateTtl k ttl) e) = OUnit -> sorted (kv s) ->
-  exists g, find k (kv (fst (step c s (UpdateTtl k ttl) e))) = Some g /\ g_val g = g_val old /\ g_ts old < g_ts g.
+  exists g, find k (kv (fst (step c s (UpdateTtl k ttl) e))) = Some g /\ g_val g = g_val old /\ g_ts old < g_ts g
+(* ---- concurrent clause (Model/Sweep.v): the sweeper and lazy retirement racing with writers that
+   renew, replace or delete the key, under a clock that only grows; every schedule ---- *)
+
+(* while nobody writes or deletes the key, its current generation stays in the table for as long
+   as it is unexpired or has no expiry: through any number of sweeper batches, lazy retirements,
+   writes to other keys and clock ticks, in any order *).
 Print Assumptions ttl_update_keeps_value.
+
+Theorem unexpired_survives_sweeper_and_lazy_retirement :
+  forall es s k g,
+  SweepProofs.SwInv s -> forallb (fun e => negb (Sweep.client_write_on k e)) es = true ->
+  Sched.aget k (Sweep.ss_tbl s) = Some g ->
+  Sweep.expired_at g (Sweep.ss_now (Sweep.sfinal s es)) = false ->
+  Sched.aget k (Sweep.ss_tbl (Sweep.sfinal s es)) = Some g
+
+(* the hypothesis SwInv holds in every reachable state *).
+Proof. exact SweepProofs.unexpired_generation_survives. Qed.
+Check unexpired_survives_sweeper_and_lazy_retirement :
+  forall es s k g,
+  SweepProofs.SwInv s -> forallb (fun e => negb (Sweep.client_write_on k e)) es = true ->
+  Sched.aget k (Sweep.ss_tbl s) = Some g ->
+  Sweep.expired_at g (Sweep.ss_now (Sweep.sfinal s es)) = false ->
+  Sched.aget k (Sweep.ss_tbl (Sweep.sfinal s es)) = Some g
+
+(* the hypothesis SwInv holds in every reachable state *).
+Print Assumptions unexpired_survives_sweeper_and_lazy_retirement.
+
+Theorem sweep_invariant_reachable :
+  forall es s, SweepProofs.SwInv s -> SweepProofs.SwInv (Sweep.sfinal s es)
+
+(* every removal by expiry ever made -- by the sweeper or lazily -- took out a generation that was
+   expired at the wall clock of the removal *).
+Proof. exact SweepProofs.srun_inv. Qed.
+Check sweep_invariant_reachable :
+  forall es s, SweepProofs.SwInv s -> SweepProofs.SwInv (Sweep.sfinal s es)
+
+(* every removal by expiry ever made -- by the sweeper or lazily -- took out a generation that was
+   expired at the wall clock of the removal *).
+Print Assumptions sweep_invariant_reachable.
+
+Theorem expiry_removes_only_expired :
+  forall es r, In r (Sweep.ss_log (Sweep.sfinal Sweep.sinit es)) ->
+  Sweep.expired_at (Sweep.r_gen r) (Sweep.r_clock r) = true
+
+(* one event changes a key's entry only by a client's write to that key or by removing its current,
+   expired generation: a renewed key is never removed on behalf of the generation it replaced *).
+Proof. exact SweepProofs.expiry_removes_only_expired. Qed.
+Check expiry_removes_only_expired :
+  forall es r, In r (Sweep.ss_log (Sweep.sfinal Sweep.sinit es)) ->
+  Sweep.expired_at (Sweep.r_gen r) (Sweep.r_clock r) = true
+
+(* one event changes a key's entry only by a client's write to that key or by removing its current,
+   expired generation: a renewed key is never removed on behalf of the generation it replaced *).
+Print Assumptions expiry_removes_only_expired.
+
+Theorem entry_changes_only_by_write_or_expiry :
+  forall es e k,
+  let s := Sweep.sfinal Sweep.sinit es in
+  let s' := fst (Sweep.sstep s e) in
+  Sched.aget k (Sweep.ss_tbl s') = Sched.aget k (Sweep.ss_tbl s) \/ Sweep.client_write_on k e = true \/
+  (exists g, Sched.aget k (Sweep.ss_tbl s) = Some g /\ Sched.aget k (Sweep.ss_tbl s') = None /\ Sweep.expired_at g (Sweep.ss_now s) = true)
+
+(* no older generation reappears: the identities a key's entry goes through only grow, and a key
+   removed by expiry stays absent until a client writes it again *).
+Proof. exact SweepProofs.entry_changes_only_by_write_or_expiry. Qed.
+Check entry_changes_only_by_write_or_expiry :
+  forall es e k,
+  let s := Sweep.sfinal Sweep.sinit es in
+  let s' := fst (Sweep.sstep s e) in
+  Sched.aget k (Sweep.ss_tbl s') = Sched.aget k (Sweep.ss_tbl s) \/ Sweep.client_write_on k e = true \/
+  (exists g, Sched.aget k (Sweep.ss_tbl s) = Some g /\ Sched.aget k (Sweep.ss_tbl s') = None /\ Sweep.expired_at g (Sweep.ss_now s) = true)
+
+(* no older generation reappears: the identities a key's entry goes through only grow, and a key
+   removed by expiry stays absent until a client writes it again *).
+Print Assumptions entry_changes_only_by_write_or_expiry.
+
+Theorem generations_only_move_forward :
+  forall es s k g g',
+  SweepProofs.SwInv s -> Sched.aget k (Sweep.ss_tbl s) = Some g -> Sched.aget k (Sweep.ss_tbl (Sweep.sfinal s es)) = Some g' ->
+  Sweep.sg_id g <= Sweep.sg_id g'.
+Proof. exact SweepProofs.generations_only_move_forward. Qed.
+Check generations_only_move_forward :
+  forall es s k g g',
+  SweepProofs.SwInv s -> Sched.aget k (Sweep.ss_tbl s) = Some g -> Sched.aget k (Sweep.ss_tbl (Sweep.sfinal s es)) = Some g' ->
+  Sweep.sg_id g <= Sweep.sg_id g'.
+Print Assumptions generations_only_move_forward.
+
+Theorem expired_key_stays_absent :
+  forall es s k,
+  SweepProofs.SwInv s -> Sched.aget k (Sweep.ss_tbl s) = None ->
+  forallb (fun e => negb (Sweep.client_write_on k e)) es = true ->
+  Sched.aget k (Sweep.ss_tbl (Sweep.sfinal s es)) = None
+
+(* a read never returns a generation that is expired at the clock of the read *).
+Proof. exact SweepProofs.expired_key_stays_absent. Qed.
+Check expired_key_stays_absent :
+  forall es s k,
+  SweepProofs.SwInv s -> Sched.aget k (Sweep.ss_tbl s) = None ->
+  forallb (fun e => negb (Sweep.client_write_on k e)) es = true ->
+  Sched.aget k (Sweep.ss_tbl (Sweep.sfinal s es)) = None
+
+(* a read never returns a generation that is expired at the clock of the read *).
+Print Assumptions expired_key_stays_absent.
+
+Theorem read_never_returns_expired :
+  forall s k v, snd (Sweep.sstep s (Sweep.EGet k)) = Sweep.SVal (Some v) ->
+  exists g, Sched.aget k (Sweep.ss_tbl s) = Some g /\ Sweep.expired_at g (Sweep.ss_now s) = false /\ Sweep.sg_val g = v.
+Proof. exact SweepProofs.get_never_returns_expired. Qed.
+Check read_never_returns_expired :
+  forall s k v, snd (Sweep.sstep s (Sweep.EGet k)) = Sweep.SVal (Some v) ->
+  exists g, Sched.aget k (Sweep.ss_tbl s) = Some g /\ Sweep.expired_at g (Sweep.ss_now s) = false /\ Sweep.sg_val g = v.
+Print Assumptions read_never_returns_expired.
 Example expiry_example :
   let c := mkcfg false true 3 None 168 in
   let e0 := mkenv 0 0 1000000000000 1000000000001 0 None in
@@ -98,3 +216,14 @@ Example expiry_example :
   (* expiry = 100 + 5e9, far below now = 1e12: invisible; the key still occupies its slot *)
   snd (step c s1 (Get [1]) e0) = OErr KeyNotFound /\ snd (step c s1 (Contains [1]) e0) = OBool true.
 Proof. vm_compute. split; reflexivity. Qed.
+
+(* non-vacuity of the concurrent clause: the sweeper samples an expired generation, the key is
+   renewed before the guarded step, the sweeper's removal finds another generation and leaves it;
+   the same schedule without the renewal removes the key *)
+Example renewal_wins_against_a_parked_sweeper :
+  let race := [Sweep.ETick 1000; Sweep.EPut 7 500 1; Sweep.ESample; Sweep.EPut 7 5000 2; Sweep.EProc 7] in
+  let plain := [Sweep.ETick 1000; Sweep.EPut 7 500 1; Sweep.ESample; Sweep.EProc 7] in
+  option_map Sweep.sg_val (Sched.aget 7 (Sweep.ss_tbl (Sweep.sfinal Sweep.sinit race))) = Some 2 /\
+  Sched.aget 7 (Sweep.ss_tbl (Sweep.sfinal Sweep.sinit plain)) = None /\
+  length (Sweep.ss_log (Sweep.sfinal Sweep.sinit plain)) = 1%nat.
+Proof. vm_compute. repeat split. Qed.
